@@ -63,6 +63,7 @@ type scriptRun struct {
 	SrvSKXOverList                   bool   // GM: sign the ServerKeyExchange over the second entry of the substituted certificate list
 	SrvSKXSigAlg                     uint16 // TLS ECDHE: SignatureAndHashAlgorithm named in the ServerKeyExchange (signature bytes stay RSA/SHA-256)
 	EUTNoVerify                      bool   // endpoint under test (client) runs with InsecureSkipVerify
+	EUTReneg                         int    // endpoint under test (client): Config.Renegotiation (0 never, 1 once, 2 freely)
 	EUTDefaultSuites                 bool   // endpoint under test (GMSSL client) keeps the default suite list
 	GMECDHECurve                     uint16 // scripted GM server: curve id named in the ECDHE-SM2 parameters
 	GMECDHEBadPoint                  int
@@ -246,6 +247,11 @@ func runScriptedPeer(c *simkit.Choice, r *simkit.Rec) {
 				sr.EUTMinVers = []uint16{gmtls.VersionGMSSL, gmtls.VersionTLS11, gmtls.VersionTLS12}[c.Choose(3, simkit.LScen)]
 			}
 		}
+	}
+	if !sr.EUTServer {
+		// a client that would accept a renegotiation later must be just as strict
+		// about the order of the first handshake
+		sr.EUTReneg = c.Weighted([]int{3, 1, 1}, simkit.LScen)
 	}
 	mismatch := sr.EUTServer && ((sr.SMode == modeTLS && !sr.TLS) || (sr.SMode == modeGM && sr.TLS))
 	sr.Expect = expComplete
@@ -866,13 +872,13 @@ func runScriptedPeer(c *simkit.Choice, r *simkit.Rec) {
 			}
 			conn = gmtls.Server(eutRaw, cfg)
 		} else if sr.TLS {
-			cfg := &gmtls.Config{Rand: entE, Time: simTime(s, 0), RootCAs: pki.Pool("rsaCA"), ServerName: "server.sim", CipherSuites: []uint16{sr.Suite}}
+			cfg := &gmtls.Config{Rand: entE, Time: simTime(s, 0), RootCAs: pki.Pool("rsaCA"), ServerName: "server.sim", CipherSuites: []uint16{sr.Suite}, Renegotiation: gmtls.RenegotiationSupport(sr.EUTReneg)}
 			if sr.ClientAuth {
 				cfg.Certificates = []gmtls.Certificate{pki.GMStd("tlsclirsa")}
 			}
 			conn = gmtls.Client(eutRaw, cfg)
 		} else {
-			cfg := &gmtls.Config{GMSupport: gmtls.NewGMSupport(), Rand: entE, Time: simTime(s, 0), RootCAs: pki.Pool("caA"), ServerName: "server.sim", CipherSuites: []uint16{sr.Suite}, InsecureSkipVerify: sr.EUTNoVerify}
+			cfg := &gmtls.Config{GMSupport: gmtls.NewGMSupport(), Rand: entE, Time: simTime(s, 0), RootCAs: pki.Pool("caA"), ServerName: "server.sim", CipherSuites: []uint16{sr.Suite}, InsecureSkipVerify: sr.EUTNoVerify, Renegotiation: gmtls.RenegotiationSupport(sr.EUTReneg)}
 			if sr.EUTDefaultSuites {
 				cfg.CipherSuites = nil
 			}
@@ -1084,6 +1090,9 @@ func runScriptedPeer(c *simkit.Choice, r *simkit.Rec) {
 	}
 	if sr.TLS {
 		role += "/tls12peer"
+	}
+	if sr.EUTReneg != 0 {
+		role += "/reneg-enabled"
 	}
 	r.Config = role + "/" + fmt.Sprintf("%04x", sr.Suite)
 	r.SigStr(role + sr.Why)
